@@ -107,7 +107,11 @@ def main(argv=None):
     if command is None:
         if len(arg) == 0:
             # errors += ['you must specify a command e.g (list, all)']
-            command = 'all'
+            if modname is not None and '::' in modname:
+                # the modname itself names the test to run (modpath::callname)
+                command = None
+            else:
+                command = 'all'
         else:
             command = arg.pop(0)
 
